@@ -2,6 +2,7 @@ import Wx.Job.C08
 import Wx.Job.C08b
 import Wx.Job.C06
 import Wx.Job.C08t
+import Wx.Job.C08m
 /-! # C08 — Quit always terminates and leaves no supervised process behind
 
 > After the action handler requests a quit the main task finishes within a bounded time whatever the jobs are doing:
@@ -10,9 +11,9 @@ import Wx.Job.C08t
 > quit of a grouped command, and in the CLI an interrupt or terminate signal leads to exactly this shutdown.
 
 A graceful quit is, per job, `stop_with_signal(sig, grace)` then `delete().await` = `[GracefulStop]` then `[Stop, Delete]`
-in the normal queue; the worker then joins every job task. The statements below are per job; the composition over the job
-map, the time bound as a number, abort (`KillOnDrop`) and real process groups are checked by the quit-sim / quit-real
-streams (see DESIGN.md §12 and known findings F15a, F15b). -/
+in the normal queue; the worker then joins every job task. The statements below are per job, followed by the composition
+over the job map (`main_task_done_after_largest_deadline`); abort (`KillOnDrop`) and real process groups are checked by the
+quit-sim / quit-real streams (see DESIGN.md §12 and known findings F15a, F15b). -/
 namespace Props.C08
 open Jm
 
@@ -62,5 +63,17 @@ theorem idle_deadline (s : St) (ht : s.timer = none) (hn : s.normal = []) (hh : 
     unexpired grace timer — nothing else ever holds a control back -/
 theorem only_a_grace_timer_holds_controls_back {s : St} (hcfg : s.cfg = Fixes.all) (hal : s.alive = true) (hne : s.normal ≠ [])
     (hidle : turns s = []) : ∃ tm, s.timer = some tm ∧ s.now < tm.until_ := idle_timer hcfg hal hne hidle
+
+/-- **the main task, any number of jobs**: one run per job after the quit (`Finals`), read at a common instant `T`; each job
+    in any state of the repaired code — still reachable or already ended — and continuing with any history that carries no
+    further grace period. Once `T` is later than the LARGEST per-job bound (deadline at the quit + the quit's grace period; 0
+    for an ended task) no job task is alive, which is when both `join_all`s of the worker's quit branch have returned. -/
+theorem main_task_done_after_largest_deadline (sig : Sig) (g : Nat) (jobs : List (Sim × List Op)) (hj : ∀ j ∈ jobs, JobOk j)
+    (ys : List Sim) (hf : Finals sig g jobs ys) (T : Nat) (hT : ∀ y ∈ ys, y.st.now = T)
+    (hlt : mainBound (jobs.map (·.1)) g < T) : ∀ y ∈ ys, y.st.alive = false := c08_main_bound sig g jobs hj ys hf T hT hlt
+
+/-- a job task that has ended never comes back, whatever is sent to it, polled on it or dropped afterwards -/
+theorem ended_task_stays_ended (x : Sim) (h : x.st.alive = false) (ops : List Op) : ∀ y ∈ runOps x ops, y.st.alive = false :=
+  dead_stays_dead x h ops
 
 end Props.C08
